@@ -271,7 +271,7 @@ def run(ck):
     worst_int = 0.0
     for i in range(n):
         big = (i == 3) or (i % 100 == 53)
-        ant = long_wire(rng) if big else antgen.gen_curved(rng) if i % 6 == 4 else \
+        ant = long_wire(rng) if big else antgen.gen_curved(rng, antgen.CURVED_KINDS[(i // 6) % 5]) if i % 6 == 4 else \
             antgen.gen_antenna(rng, max_pulses=18 if ck.tier == 'quick' else 60)
         m = antgen.build(ant)
         ss = rng.randrange(10 ** 9)
